@@ -70,17 +70,35 @@ def r1_pass_through(ctx):
         ctx.ob(f.where, "original record bytes are returned only when no field has been assigned", ok1, str(sorted(facts)), key="C04-R1|guard-set-values")
         ctx.ob(f.where, "original record bytes are returned only for a compatible target buffer class", ok2, str(sorted(facts)), key="C04-R1|guard-class")
     loops = [n for n in g.nodes if n.kind == "for" and "dataclasses.fields(dataclass)" in u(n.ast.iter)]
-    ctx.need(len(loops) == 1 and u(loops[0].ast.iter) == "enumerate(dataclasses.fields(dataclass))", "per-field loop of the modified write not found")
-    iv, fv = (e.id for e in loops[0].ast.target.elts)
-    apps = [n for n in g.nodes if n.kind == "stmt" and isinstance(n.ast, ast.Expr) and isinstance(n.ast.value, ast.Call) and u(n.ast.value.func) == "columns.append"]
-    ctx.need(len(apps) == 2, "modified write: two column sources expected")
+    comps = [c for c in walk_local(f.node) if isinstance(c, ast.ListComp) and len(c.generators) == 1 and "dataclasses.fields(dataclass)" in u(c.generators[0].iter)]
     seen = {}
-    for a in apps:
-        facts = set()
-        for t, lab in g.guards(a):
-            facts |= edge_facts(t, lab)
-        pol = [p for c, p in facts if c == f"({fv}.name)in(self._set_values)"]
-        seen[pol[0] if pol else None] = sym.canon(a.ast.value.args[0])
+    if len(loops) == 1 and u(loops[0].ast.iter) == "enumerate(dataclasses.fields(dataclass))":
+        iv, fv = (e.id for e in loops[0].ast.target.elts)
+        apps = [n for n in g.nodes if n.kind == "stmt" and isinstance(n.ast, ast.Expr) and isinstance(n.ast.value, ast.Call) and u(n.ast.value.func) == "columns.append"]
+        ctx.need(len(apps) == 2, "modified write: two column sources expected")
+        for a in apps:
+            facts = set()
+            for t, lab in g.guards(a):
+                facts |= edge_facts(t, lab)
+            pol = [p for c, p in facts if c == f"({fv}.name)in(self._set_values)"]
+            seen[pol[0] if pol else None] = sym.canon(a.ast.value.args[0])
+    elif not loops and len(comps) == 1 and u(comps[0].generators[0].iter) == "enumerate(dataclasses.fields(dataclass))" and not comps[0].generators[0].ifs \
+            and isinstance(comps[0].generators[0].target, ast.Tuple) and len(comps[0].generators[0].target.elts) == 2 and isinstance(comps[0].elt, ast.IfExp):
+        # the same per-field choice written as one list comprehension over the fields (in field order)
+        iv, fv = (e.id for e in comps[0].generators[0].target.elts)
+        e = comps[0].elt
+        tc = sym.canon(e.test)
+        if tc == f"({fv}.name)in(self._set_values)":
+            seen[True], seen[False] = sym.canon(e.body), sym.canon(e.orelse)
+        elif tc == f"({fv}.name)not in(self._set_values)" or tc == f"not(({fv}.name)in(self._set_values))":
+            seen[False], seen[True] = sym.canon(e.body), sym.canon(e.orelse)
+        else:
+            raise Unrecognised(f"{f.where}: per-field choice of the modified write is made on `{u(e.test)}`")
+        users = [x for x in body_walk(f.node) if isinstance(x, ast.Assign) and x.value is comps[0] and u(x.targets[0]) == "columns"] + \
+                [c for c in walk_local(f.node) if isinstance(c, ast.Call) and c.args and c.args[0] is comps[0] and u(c.func) == f"{bc}.join_fields"]
+        ctx.need(len(users) == 1, "modified write: the list of columns is not what is joined")
+    else:
+        raise Unrecognised("per-field loop of the modified write not found")
     want_new = f"get_column({bc}.process_field_for_write({fv}.name, self._set_values[{fv}.name]), {fv}.type)"
     want_old = f"self._itemgetter.buffer.get_field_range_as_text({iv}, 1 + {iv})"
     ctx.ob(f.where, "an assigned field is written from its new value (through the format's write hook and its declared type)", seen.get(True) == want_new, str(seen.get(True)),
